@@ -414,6 +414,7 @@ func (s *Session) onPreprocess(resp *rtsp.Response, req *rtsp.Request) (continue
 			req.Method == rtsp.MethodPause)
 	default:
 		continueProcess = !(req.Method == rtsp.MethodPlay ||
+			req.Method == rtsp.MethodPause ||
 			req.Method == rtsp.MethodRecord)
 	}
 
